@@ -317,6 +317,9 @@ def modelled_workloads(rng, tier):
 
 def other_workloads(rng, tier):
     w = []
+    # arrays whose capacity equals their length (every parsed array): replacing the last element, appending, inserting
+    w += ["asput %d %d" % p for p in [(3, 2), (3, 3), (1, 0), (32, 31), (32, 32), (5, 4), (5, 2), (40, 39), (40, 100)]]
+    w += ["asins %d %d" % p for p in [(3, 0), (3, 3), (32, 5), (1, 0), (40, 39)]]
     for d in DOCS:
         w.append("parse v 0 0 " + hx(d))
     for d in DOCS[8:18]:
